@@ -189,7 +189,10 @@ pub fn render_diff(plan: &Plan, use_color: bool) -> String {
                 // Apply replacements from right to left to maintain positions
                 for hunk in sorted_hunks {
                     let col = hunk.byte_offset as usize;
-                    if col < after_line.len() && after_line[col..].starts_with(&hunk.content) {
+                    if after_line
+                        .get(col..)
+                        .is_some_and(|rest| rest.starts_with(&hunk.content))
+                    {
                         let end = col + hunk.content.len();
                         after_line.replace_range(col..end, &hunk.replace);
                     }
